@@ -266,7 +266,13 @@ def case_c02(rep, spec):
             continue
         ld = float(ld)
         try:
-            if p.get("kink") and "sides" in p:
+            if spec.get("src") == "leaf" and spec.get("cls") == "Tanh":
+                # autodiff differentiates tanh as 1 - tanh^2, which cancels where tanh saturates (4e-4 off at x = 15, 0.5 at
+                # x = 18): the reference must be better conditioned than the code it judges -- log sech^2 in its stable form
+                ax = np.abs(np.asarray(x, float))
+                refs = [(float(np.sum(np.log(4.0) - 2 * ax - 2 * np.log1p(np.exp(-2 * ax)))), 1.0)]
+                tanh_saturated = bool(np.any(1 - np.abs(np.asarray(y, float)) < 1e-9))      # the inverse there is ill-conditioned / infinite
+            elif p.get("kink") and "sides" in p:
                 refs = [_slogdet(b, s, c, z["bisect"]) for s in p["sides"]]
             else:
                 refs = [_slogdet(b, x, c, z["bisect"])]
@@ -320,7 +326,7 @@ def case_c02(rep, spec):
                           f"{z['name']} at x = {np.asarray(x).ravel().tolist()}: reported log-det {ld}; log|det| of the autodiff "
                           f"Jacobian of transform = {[r[0] for r in refs]}{' (one-sided at a kink)' if len(refs) > 1 else ''}",
                           {"spec": spec, "point": np.asarray(x).tolist()})
-        if z["noinv"]:
+        if z["noinv"] or (spec.get("src") == "leaf" and spec.get("cls") == "Tanh" and tanh_saturated):
             continue
         try:
             xb, ldi = b.inverse_and_log_det(y, c)
